@@ -281,6 +281,39 @@ STATE = [getvar, tag, mutvar]
 ATTRS = {"attr_up": dict(ABC="abc"), "attr_low": dict(abc="x"), "vol": dict(volatile=True)}
 
 
+_basic = []
+
+
+def basic_wrappers():
+    """liquer.ext.basic's state-variable commands, wrapped only to append to the call log"""
+    if _basic:
+        return _basic
+    import liquer.ext.basic as B
+
+    def let(state, name, value):
+        _log("let")
+        return B.let(state, name, value)
+
+    def flag(state, name, value: bool = True):
+        _log("flag")
+        return B.flag(state, name, value)
+
+    def ns(state, *namespaces):
+        _log("ns")
+        return B.ns(state, *namespaces)
+
+    def filename(state, name):
+        _log("filename")
+        return B.filename(state, name)
+
+    def state_variable(state, name):
+        _log("state_variable")
+        return B.state_variable(state, name)
+
+    _basic.extend([let, flag, ns, filename, state_variable])
+    return _basic
+
+
 def table():
     """namespace -> name -> (function, kind, attributes); kind in first/data/state. Includes liquer.ext.basic's
     state-variable commands (their undecorated functions)."""
@@ -295,7 +328,7 @@ def table():
         t["root"][f.__name__] = (f, "data", dict(ATTRS[f.__name__]))
     for f in STATE:
         t["root"][f.__name__] = (f, "state", {})
-    for f in (B.let, B.flag, B.ns, B.filename, B.state_variable):
+    for f in basic_wrappers():
         t["root"][f.__name__] = (f, "state", {})
     t["alt"]["add"] = (_alt_add, "data", {})
     t["alt"]["only_alt"] = (only_alt, "data", {})
@@ -306,8 +339,9 @@ def register_all():
     """Fresh CommandRegistry holding V, through the public decorators."""
     from liquer.commands import command, first_command, reset_command_registry
 
+    tbl = table()  # imports liquer.ext.basic (which registers its own commands) before the registry is reset
     reset_command_registry()
-    for nsname, cmds in table().items():
+    for nsname, cmds in tbl.items():
         for name, (f, kind, attrs) in cmds.items():
             kw = dict(attrs)
             kw["ns"] = nsname
